@@ -96,6 +96,7 @@ pub struct Inv {
 impl Inv {
     pub fn out_name(&self) -> String {
         match self.mode {
+            Mode::File if self.out_sub == "<bare>" => format!("types.{}", lang_ext(&self.lang)),
             Mode::File => format!("{}types.{}", if self.out_sub.is_empty() || self.out_sub.ends_with('/') { self.out_sub.clone() } else { format!("{}/", self.out_sub) }, lang_ext(&self.lang)),
             Mode::Folder => String::new(),
         }
